@@ -1,3 +1,4 @@
+import Proofs.C01
 import Proofs.C05
 import Proofs.C06
 import Proofs.C07
